@@ -220,35 +220,117 @@ def r_budget(ctx, tv, budget, rule='S5-BUDGET'):
     want = {'count', 'search_k', 'oversampling', 'roots', 'DEFAULT_OVERSAMPLING'}
     ctx.check(fields == want, 'S5-PROVENANCE', f.path + '/budget-inputs', f.loc(), 'budget depends on exactly %s' % sorted(want),
               'the search budget of `%s` depends on %s instead of %s' % (f.path, sorted(fields), sorted(want)))
-    # structure: map_or(oversampling, S*DEFAULT, |o| S*o) ; S = map_or(search_k, count*roots.len(), get)
-    good = False
-    why = show(K)[:160]
-    if K[0] == 'call' and K[1].endswith('::map_or'):
-        o, dflt, clo = strip(K[2][0]), strip(K[2][1]), strip(K[2][2])
-        if o[0] == 'field' and o[2] == 'oversampling' and dflt[0] == 'call' and dflt[1].endswith('::saturating_mul'):
-            S, dm = strip(dflt[2][0]), strip(dflt[2][1])
-            okd = dm[0] == 'const' and 'DEFAULT_OVERSAMPLING' in str(dm[2])
-            okS = False
-            if S[0] == 'call' and S[1].endswith('::map_or'):
-                sk, sd, sg = strip(S[2][0]), strip(S[2][1]), strip(S[2][2])
-                okS = (sk[0] == 'field' and sk[2] == 'search_k' and sd[0] == 'call' and sd[1].endswith('::saturating_mul')
-                       and {_leaf(strip(sd[2][0])), _leaf(strip(sd[2][1]))} == {'count', 'len(roots)'}
-                       and sg[0] == 'fn' and sg[1].endswith('::get'))
-            okc = False
-            if clo[0] == 'closure':
-                g = F.fn(clo[1])
-                if g is not None:
-                    for rb, k, t in paths.ret_assigns(g):
-                        tt = strip(t)
-                        if tt[0] == 'call' and tt[1].endswith('::saturating_mul'):
-                            a0, a1 = strip(tt[2][0]), strip(tt[2][1])
-                            okc = (a1[0] == 'call' and a1[1].endswith('::get') and strip(a1[2][0])[0] == 'arg') and a0[0] == 'field'
-                    # the captured value is S
-                    okc = okc and len(clo[2]) == 1 and strip_all(clo[2][0]) == strip_all(S)
-            good = okd and okS and okc
-    ctx.check(good, 'S5-PROVENANCE', f.path + '/budget-formula', f.loc(),
-              'budget = (search_k or count x n_trees) x (oversampling or DEFAULT_OVERSAMPLING), saturating',
-              'the search budget of `%s` is not (search_k or count x number-of-trees) x (oversampling or the metric default): %s' % (f.path, why))
+    # finite-domain symbolic evaluation of the budget for the four (search_k set?, oversampling set?) cases
+    bad = []
+    for sk in (True, False):
+        for ov in (True, False):
+            got = budget_product(F, f, K, {'search_k': sk, 'oversampling': ov})
+            want = sorted((['search_k'] if sk else ['count', 'n_trees']) + (['oversampling'] if ov else ['DEFAULT']))
+            if got is None or sorted(got) != want:
+                bad.append('search_k %s, oversampling %s: %s' % ('set' if sk else 'unset', 'set' if ov else 'unset', got))
+    ctx.check(not bad, 'S5-PROVENANCE', f.path + '/budget-formula', f.loc(),
+              'budget = (search_k or count x n_trees) x (oversampling or DEFAULT_OVERSAMPLING), saturating, in all four option cases',
+              'the search budget of `%s` is not (search_k or count x number-of-trees) x (oversampling or the metric default): %s' % (f.path, bad[:2]))
+
+
+def _opt_payload(t):
+    """'search_k' / 'oversampling' when t is the Some payload of that option field"""
+    seen_some = False
+    for x in walk(t):
+        if x[0] == 'downcast' and x[2] == 'Some':
+            seen_some = True
+        if x[0] == 'field' and x[2] in ('search_k', 'oversampling') and seen_some:
+            return x[2]
+    return None
+
+
+def budget_product(F, f, t, assume, depth=0):
+    """list of atoms whose saturating product the term denotes under `assume`, or None"""
+    if depth > 12:
+        return None
+    t0 = strip(t)
+    k = t0[0]
+    if k == 'cast':
+        return budget_product(F, f, t0[2], assume, depth + 1)
+    if k == 'const':
+        if isinstance(t0[2], str) and 'DEFAULT_OVERSAMPLING' in t0[2]:
+            return ['DEFAULT']
+        return None
+    if k in ('field', 'downcast'):
+        p = _opt_payload(t0)
+        if p:
+            return [p]
+        if k == 'field' and t0[2] == 'count':
+            return ['count']
+        if k == 'field' and t0[2] in ('0',):
+            return budget_product(F, f, t0[1], assume, depth + 1)
+        return None
+    if k == 'phi':
+        alts = t0[2]
+        tagged = [(a, _opt_payload(a)) for a in alts]
+        which = {p for a, p in tagged if p}
+        if len(which) == 1 and len(alts) == 2:
+            w = list(which)[0]
+            pick = [a for a, p in tagged if (p == w) == assume[w]]
+            if len(pick) == 1:
+                return budget_product(F, f, pick[0], assume, depth + 1)
+        return None
+    if k == 'call':
+        n = t0[1]
+        if n.endswith('::saturating_mul') and len(t0[2]) == 2:
+            a, b = budget_product(F, f, t0[2][0], assume, depth + 1), budget_product(F, f, t0[2][1], assume, depth + 1)
+            return a + b if a is not None and b is not None else None
+        if n.endswith('NonZero::<T>::get') or n.endswith('::get'):
+            return budget_product(F, f, t0[2][0], assume, depth + 1)
+        if n.endswith('::len') and t0[2]:
+            a = strip(t0[2][0])
+            if a[0] == 'field' and a[2] == 'roots':
+                return ['n_trees']
+            return None
+        if n.endswith('::map_or') and len(t0[2]) == 3:
+            o = strip(t0[2][0])
+            w = o[2] if o[0] == 'field' and o[2] in ('search_k', 'oversampling') else None
+            if w is None:
+                return None
+            if not assume[w]:
+                return budget_product(F, f, t0[2][1], assume, depth + 1)
+            fn_t = strip(t0[2][2])
+            if fn_t[0] == 'fn' and fn_t[1].endswith('::get'):
+                return [w]
+            if fn_t[0] == 'closure':
+                g = F.fn(fn_t[1])
+                if g is None:
+                    return None
+                rets = paths.ret_assigns(g)
+                if len(rets) != 1:
+                    return None
+                # substitute: closure parameter (local 2) -> the option payload; captures -> the captured terms
+                return _closure_product(F, g, rets[0][2], w, fn_t[2], f, assume, depth + 1)
+        if n.endswith(('::unwrap_or', 'Option::<T>::unwrap_or')) and len(t0[2]) == 2:
+            o = strip(t0[2][0])
+            if o[0] == 'call' and o[1].endswith('::map') and strip(o[2][0])[0] == 'field':
+                w = strip(o[2][0])[2]
+                if w in assume:
+                    return [w] if assume[w] else budget_product(F, f, t0[2][1], assume, depth + 1)
+            return None
+    return None
+
+
+def _closure_product(F, g, t, w, captured, f, assume, depth):
+    t0 = strip(t)
+    if t0[0] == 'arg' and t0[1] == 2:
+        return [w]
+    if t0[0] == 'call' and t0[1].endswith('::saturating_mul') and len(t0[2]) == 2:
+        a = _closure_product(F, g, t0[2][0], w, captured, f, assume, depth + 1)
+        b = _closure_product(F, g, t0[2][1], w, captured, f, assume, depth + 1)
+        return a + b if a is not None and b is not None else None
+    if t0[0] == 'call' and t0[1].endswith('::get') and t0[2]:
+        return _closure_product(F, g, t0[2][0], w, captured, f, assume, depth + 1)
+    if t0[0] == 'field' and strip(t0[1])[0] == 'arg' and strip(t0[1])[1] == 1 and t0[2].isdigit():
+        i = int(t0[2])
+        if i < len(captured):
+            return budget_product(F, f, captured[i], assume, depth + 1)
+    return None
 
 
 def _only_capacity_hint(f, u, depth=0):
@@ -460,8 +542,23 @@ def r_scoring(ctx, tv, rule='S8-SCORE'):
                 idp = [s for s in walk(t[1][0]) if s[0] == 'call' and s[1].endswith('::pop')]
                 oko = okdim and bool(idp) and idp[0][3] == pops[0][3]
                 # bounded: the push is reachable only while len != capacity
-                conds = [e for s, x, e in paths.controlling_conds(f, p.bb, transitive=False) if e[0] == 'bool']
-                okb = any(strip(e[1])[0] == 'binop' and strip(e[1])[1] in ('Eq', 'Ne', 'Lt', 'Ge') and any(s[0] == 'call' and s[1].endswith('::len') for s in walk(e[1])) for e in conds)
+                conds = [e for s, x, e in paths.controlling_conds(f, p.bb, transitive=True) if e[0] == 'bool' and paths.edge_dominates(f, s, x, p.bb)]
+                okb = False
+                outv = strip_all(p.arg_term(0))
+                for e in conds:
+                    c0 = strip(e[1])
+                    if c0[0] != 'binop':
+                        continue
+                    a, b2 = strip(c0[2]), strip(c0[3])
+                    def is_len_out(x):
+                        return x[0] == 'call' and x[1].endswith('::len') and x[2] and strip_all(x[2][0]) == outv
+                    def is_cap(x):
+                        return any(y[0] == 'call' and y[1].endswith('::min') and any(z[0] == 'field' and z[2] == 'count' or (z[0] == 'arg' and f.local_name(z[1]) == 'count') for z in walk(y)) for y in walk(x))
+                    op, tr = c0[1], e[2]
+                    if is_len_out(a) and is_cap(b2):
+                        okb = okb or (op, tr) in (('Lt', True), ('Ge', False), ('Eq', False), ('Ne', True))
+                    elif is_cap(a) and is_len_out(b2):
+                        okb = okb or (op, tr) in (('Gt', True), ('Le', False), ('Eq', False), ('Ne', True))
                 oko = oko and okb
     ctx.check(oko, 'S9-OUTPUT', f.path + '/emit', nd[0].loc() if nd else f.loc(), 'emits (id, D::normalized_distance(d, self.dimensions)) of one popped entry while len < capacity',
               'the output loop of `%s` does not emit (id, normalized distance) pairs of single heap entries bounded by the capacity' % f.path)
@@ -485,22 +582,32 @@ def r_entry_points(ctx, rule='S11-ENTRY'):
     if not ctx.need(bi is not None and bv is not None and len(tvs) == 1, rule, 'by_item / by_vector / one traversal function'):
         return
     t = tvs[0]
-    ci = [c for c in bi.calls() if c.callee == t.path]
-    cv = [c for c in bv.calls() if c.callee == t.path]
+    ci = [c for g in F.family(bi) for c in g.calls() if c.callee == t.path]
+    cv = [c for g in F.family(bv) for c in g.calls() if c.callee == t.path]
     ctx.check(len(ci) == 1 and len(cv) == 1, rule, 'same-traversal', bi.loc(), 'by_item and by_vector delegate to the same traversal', 'by_item and by_vector no longer share one traversal function')
     if ci:
         c = ci[0]
-        # leaf from item_leaf(reader.database, reader.index, rtxn, item)
+        # leaf from item_leaf(reader.database, reader.index, rtxn, item): directly, or as the receiver of the
+        # `Option::map(|leaf| traversal(.., &leaf, ..))` whose closure contains the call
         lt = c.arg_term(2)
         il = [s for s in walk(lt) if s[0] == 'call' and s[1] == 'reader::item_leaf']
+        via_map = False
+        if not il and c.fn is not bi:
+            for x in bi.calls():
+                if x.callee.endswith('Option::<T>::map') and strip(x.arg_term(1))[0] == 'closure' and strip(x.arg_term(1))[1] == c.fn.path:
+                    il = [s for s in walk(x.arg_term(0)) if s[0] == 'call' and s[1] == 'reader::item_leaf']
+                    la = strip(lt)
+                    via_map = la[0] == 'arg' and la[1] == 2
         good = bool(il)
         if il:
             a = il[0][2]
-            good = strip(a[1])[0] == 'field' and strip(a[1])[2] == 'index' and strip(a[3])[0] == 'arg' and bi.local_name(strip(a[3])[1]) == 'item'
+            good = strip(a[1])[0] == 'field' and strip(a[1])[2] == 'index' and strip(a[3])[0] == 'arg' and bi.local_name(strip(a[3])[1]) == 'item' and (via_map or c.fn is bi)
         ctx.check(good, rule, 'by_item/leaf', c.loc(), 'queries with the stored leaf of (reader.index, item)', 'by_item does not query with the stored leaf of the requested item')
         # None => Ok(None) without error; Some => map(Some)
         rets = paths.ret_assigns(bi)
         none_ok = any(k == 'ok' and 'None' in show(tt) for b, k, tt in rets)
+        if via_map:
+            none_ok = any(k == 'call' and tt[1].endswith('::transpose') and any(s[0] == 'call' and s[1].endswith('Option::<T>::map') for s in walk(tt)) for b, k, tt in rets)
         errs = [paths.err_variant(tt) for b, k, tt in rets if k == 'err']
         ctx.check(none_ok and not errs, rule, 'by_item/unknown-id', bi.loc(), 'unknown id => Ok(None)', 'by_item turns an unknown id into something else than Ok(None) (%s)' % errs)
     if cv:
